@@ -1,4 +1,5 @@
 import Blue.Driver.Util
+import Blue.Driver.C10
 import Blue.Driver.C13
 import Blue.Driver.C15
 import Blue.Driver.C05
@@ -20,6 +21,8 @@ def dispatch (toks : List String) : String :=
   | "wire" :: rest => Blue.Driver.C15.handleWire rest
   | "proto" :: rest => Blue.Driver.C15.handleProto rest
   | "mani" :: rest => Blue.Driver.C13.handle rest
+  | "block" :: rest => Blue.Driver.C10.handle ("block" :: rest)
+  | "sst" :: rest => Blue.Driver.C10.handle ("sst" :: rest)
   | _ => "bad-op"
 
 partial def loop (h : IO.FS.Stream) (out : IO.FS.Stream) : IO Unit := do
